@@ -56,7 +56,8 @@ Succ(x, op, blocks, orig, mlb, addb) ==
     [] op = "activate" -> keep(Glob(x, x.g, TRUE, FALSE))
     [] op = "activate_add" -> keep(Glob(x, x.g, TRUE, TRUE))
     [] op = "remove" -> LET y == Glob(x, FALSE, FALSE, FALSE) IN IF RemoveOK(orig, y) THEN keep(y) ELSE {}
-    [] op = "enter" -> keep([x EXCEPT !.open = Append(x.open, <<x.g, x.m>>)])
+    [] op = "new" -> keep(x)          \* constructing a manager asks for nothing yet
+    [] op = "enter" -> keep([x EXCEPT !.open = Append(x.open, <<x.g, x.m>>)])      \* what is in force ON ENTRY is what leaving restores
     [] op \in {"exit", "exit_exc"} -> UNION {keep(y) : y \in ExitSucc(x, blocks)}
     [] OTHER -> {}
 
